@@ -378,6 +378,11 @@ func (r *storeRun) run(t *testing.T, bi int, steps []stepJ) (*Violation, int) {
 			if fmt.Sprint(exp) != fmt.Sprint(ents) {
 				fail("state", exp, ents)
 
+				// Only the usage counters (LRU stamp / LFU count) differ: that is the rank bookkeeping of eviction.
+				if r.cfg.CleanupProp == "C12" && sameButCounters(exp, ents) {
+					viol.Prop = "C12"
+				}
+
 				return
 			}
 
@@ -397,6 +402,20 @@ func (r *storeRun) run(t *testing.T, bi int, steps []stepJ) (*Violation, int) {
 	})
 
 	return viol, okN
+}
+
+func sameButCounters(a, b []entJ) bool {
+	if len(a) != len(b) {
+		return false
+	}
+
+	for i := range a {
+		if a[i].K != b[i].K || a[i].V != b[i].V || a[i].E != b[i].E {
+			return false
+		}
+	}
+
+	return true
 }
 
 func loadBehaviours(path string) ([][]stepJ, error) {
